@@ -133,6 +133,20 @@ def make_resolver(ctx, unit, ops, skip=()):
     return resolve
 
 
+def abstract_values(ctx, unit, ops, expr, env):
+    """Possible abstract values of ``expr``; a call of a synchronous library helper is
+    evaluated through the helper's body (so a predicate may be extracted into a helper)."""
+    from asl.absint import AbsEval, Machine
+    resolver = make_resolver(ctx, unit, ops)
+    if isinstance(expr, ast.Call):
+        tgt = resolver(expr, dict(env))
+        if tgt is not None:
+            cfg, bound = tgt
+            outs = Machine(cfg, ops, resolver=resolver).run(bound)
+            return {("raise", str(oc.raised)) if oc.terminal.kind == "raise_exit" else oc.returned for oc in outs}
+    return {AbsEval(ops).eval(expr, dict(env))}
+
+
 def uncast(e):
     """typing.cast(T, x) -> x (casts are no-ops at run time)."""
     while isinstance(e, ast.Call) and norm(e.func) in ("cast", "typing.cast") and len(e.args) == 2:
@@ -189,3 +203,38 @@ def uncast_deep(e):
     if e is None:
         return None
     return _CastStripper().visit(copy.deepcopy(e))
+
+
+class Relabel:
+    """Run a rule shared with another property under this property's rule id."""
+
+    def __init__(self, ctx, rid, only=None):
+        self._ctx, self._rid, self._only = ctx, rid, only
+
+    def __getattr__(self, name):
+        return getattr(self._ctx, name)
+
+    def _take(self, rule):
+        return self._only is None or any(rule.startswith(o) for o in self._only)
+
+    def ok(self, rule, *a, **k):
+        if self._take(rule):
+            return self._ctx.ok(self._rid, *a, **k)
+
+    def fail(self, rule, *a, **k):
+        if self._take(rule):
+            return self._ctx.fail(self._rid, *a, **k)
+
+    def check(self, cond, rule, *a, **k):
+        if self._take(rule):
+            return self._ctx.check(cond, self._rid, *a, **k)
+        return cond
+
+    def rule(self, *a, **k):
+        return None
+
+    def floor(self, *a, **k):
+        return None
+
+    def assume(self, *a, **k):
+        return None
